@@ -46,7 +46,8 @@ ASSUMPTIONS = ["a socket that reported a fatal error or was shut down by POX "
 REQUIRED = ["ctl_runs", "ctl_deferred_flushes", "ctl_partial_writes",
             "ctl_eagain", "ctl_fatal", "ctl_streams_compared",
             "iow_cases", "iow_partial_writes", "iow_eagain", "iow_fatal",
-            "iow_fast_sends", "iow_streams_compared"]
+            "iow_fast_sends", "iow_streams_compared",
+            "iow_connect_with_bytes_already_queued"]
 TIMEOUT = {"quick": 1500, "thorough": 10800}
 
 
@@ -506,7 +507,23 @@ def run_iow (case, rep):
     def on_close (worker, wi=wi): closes[wi] += 1
     wk.close_handler = on_close
     workers.append(wk)
-  w.run()
+    if wi in case.get("connecting", ()):
+      # an outgoing connection still being established; once it is, the
+      # connect handler queues a greeting of its own (as the switch side's
+      # OpenFlow worker does with its HELLO) - behind whatever was queued
+      # before and ahead of whatever is queued later
+      wk._connecting = True
+      def on_connect (worker, wi=wi):
+        connects[wi] += 1
+        if not shut[wi] and not worker.closed:
+          g = msg_bytes(wi, 0, 24)
+          expected[wi] += g
+          rep.count("iow_greetings_queued_by_connect_handler")
+          if len(worker.send_buf): rep.count("iow_connect_with_bytes_already_queued")
+          worker.send(g)
+      wk.connect_handler = on_connect
+  connects = [0] * n
+  if not case.get("connecting"): w.run()
   counts = [0] * n
   raised = []
   for op in case["program"]:
@@ -570,6 +587,9 @@ def run_iow (case, rep):
         if o in ("eagain", "eagain_blocked"): rep.count("iow_eagain"); nontrivial = True
         elif o == "fatal": rep.count("iow_fatal"); nontrivial = True
         elif kk < nn: rep.count("iow_partial_writes"); nontrivial = True
+      if connects[wi] > 1:
+        fire("connect handler ran more than once",
+             "worker %d: %d times" % (wi, connects[wi])); return True
       if s.bytes_after_fatal:
         fire("bytes written to the socket after a fatal error",
              "worker %d: %d bytes; log %r" % (wi, s.bytes_after_fatal,
@@ -642,6 +662,9 @@ def gen_iow_enum (shard, nshards, length):
       if i % nshards == shard:
         yield dict(part="iow", nworkers=1, program=prog,
                    scripts=[concrete_script(script, None)])
+        if i % 3 == 0:
+          yield dict(part="iow", nworkers=1, program=prog, connecting=[0],
+                     scripts=[concrete_script(script, None)])
       i += 1
 
 
@@ -672,7 +695,10 @@ def gen_iow_random (rng, n):
         elif r < 0.93: sc.append("eagain_blocked")
         else: sc.append("fatal")
       scripts.append(sc)
-    yield dict(part="iow", nworkers=nw, program=prog, scripts=scripts)
+    case = dict(part="iow", nworkers=nw, program=prog, scripts=scripts)
+    if rng.random() < 0.3:
+      case["connecting"] = sorted(set(rng.randrange(nw) for _ in range(nw)))
+    yield case
 
 
 # ==========================================================================
